@@ -13,7 +13,7 @@ try:
         print('patch does not apply', a.stderr); sys.exit(2)
     for p in props:
         env = dict(os.environ, VERIF_EVIDENCE_DIR=os.path.join(tmp, 'evidence-out'))
-        r = subprocess.run(['/verif/check', p, '--repo', tmp], capture_output=True, text=True, cwd='/verif', env=env)
+        r = subprocess.run([os.path.join(os.path.dirname(os.path.dirname(os.path.abspath(__file__))), 'check'), p, '--repo', tmp], capture_output=True, text=True, cwd=os.path.dirname(os.path.dirname(os.path.abspath(__file__))), env=env)
         out = r.stdout + r.stderr
         res[p] = dict(rc=r.returncode, lines=[l for l in out.splitlines() if 'VIOLATION' in l or 'UNDECIDED' in l][:4])
         print(os.path.basename(os.path.dirname(patch)), p, 'rc=', r.returncode, res[p]['lines'])
